@@ -655,7 +655,10 @@ def c13_short_chain_not_cut(case, obs, flavor):
     `C13.short_chain_not_cut_sync` / `sync_cut_needs_long_chain`).  async: the counter must EXCEED the bound
     (`C13.short_chain_not_cut_async`).  `self_sends` counts the interpreter's own send() calls in the step,
     `chain_cuts` the breaker's error logs (not the always-settling bound).  No step is skipped: a sync step that
-    starts with a non-empty queue (the previous send raised) is held to the same threshold."""
+    starts with a non-empty queue (the previous send raised) is held to the same threshold.
+    This is the reading per BUSY PERIOD (one event per step here, so a step is one chain). Many chains sharing one busy
+    period - a `send_events` burst - are held to the per-CAUSAL-CHAIN reading by the rule `short-chains-cut-by-burst` of
+    `c14.c04_monitor` (q_check `c14.c13_bursts_of_short_chains`; open finding F70)."""
     out = []
     limit = case["machine"].get("maxIterations", 1000)
     for i, o in enumerate(obs):
